@@ -2,6 +2,7 @@ import Pds.Proofs.Reservoir
 /-! Helper lemmas for the uniformity counting identities of reservoir sampling (C05). -/
 namespace Pds.Reservoir
 open List
+variable {R : Type}
 
 /-! ### generic counting lemmas -/
 
@@ -507,5 +508,82 @@ theorem switch_count {k : Nat} (hk : 0 < k) (gs : List Nat) (hlen : gs.length = 
         · have := not_mem_step (k := k) (n := 4 * k) hm hpn j
           simpa [stepRes, hj] using this
         · exact hm
+
+/-! ### skipping phase; shape of the sample space -/
+
+theorem accept_then_skip {I : RngI R} (hI : Lawful I) (s : St R) (x : Nat) (hk : 0 < s.k)
+    (hsz : s.res.size = s.k) (h : Accepts s) :
+    ∃ s', add I s x = some s' ∧ s'.k = s.k ∧ s'.i = s.i + 1 ∧
+      s'.skipUntil = s.i + 1 + (I.gap s.k (s.i + 1) s.rng).1 ∧
+      x ∈ s'.res ∧ s'.res.size = s.k ∧
+      (∀ xs : List Nat, xs.length ≤ (I.gap s.k (s.i + 1) s.rng).1 →
+        feed I s' xs = some { s' with i := s'.i + xs.length }) ∧
+      (∀ m, Accepts { s' with i := s'.i + m } ↔ (I.gap s.k (s.i + 1) s.rng).1 ≤ m) := by
+  have hpe := phaseEnd_eq s.k
+  have h1 := h.1
+  have hj := hI s.k (I.gap s.k (s.i + 1) s.rng).2 hk
+  rw [add_accept I s x (by omega) h, if_pos (by omega)]
+  refine ⟨_, rfl, rfl, rfl, rfl, Array.mem_setIfInBounds (by omega), by simpa using hsz, ?_, ?_⟩
+  · intro xs hxs
+    apply feed_skip
+    · show s.k ≤ s.i + 1; omega
+    · show phaseEnd s.k ≤ s.i + 1; omega
+    · show s.i + 1 + xs.length ≤ s.i + 1 + _; omega
+  · intro m
+    show (phaseEnd s.k ≤ s.i + 1 + m ∧ s.i + 1 + (I.gap s.k (s.i + 1) s.rng).1 ≤ s.i + 1 + m) ↔ _
+    omega
+
+theorem mem_allChoices {k n : Nat} {js : List Nat} :
+    js ∈ allChoices k n ↔ js.length = n - k ∧ ∀ t (h : t < js.length), js[t] ≤ k + t := by
+  induction n generalizing js with
+  | zero => simp [allChoices]; intro h; subst h; simp
+  | succ n ih =>
+    by_cases c : n < k
+    · rw [allChoices_le (by omega)]
+      have : n + 1 - k = 0 := by omega
+      simp [this]; intro h; subst h; simp
+    · have hkn : k ≤ n := by omega
+      rw [mem_allChoices_succ hkn]
+      constructor
+      · rintro ⟨js', hjs', j, hj, rfl⟩
+        obtain ⟨hl, hb⟩ := ih.mp hjs'
+        refine ⟨by simp [hl]; omega, ?_⟩
+        intro t ht
+        rw [getElem_append]
+        split
+        · exact hb t (by assumption)
+        · simp only [length_append, length_singleton] at ht
+          simp; omega
+      · rintro ⟨hl, hb⟩
+        have hne : js ≠ [] := by intro e; subst e; simp at hl; omega
+        refine ⟨js.dropLast, ih.mpr ⟨by simp [hl]; omega, ?_⟩, js.getLast hne, ?_,
+          (dropLast_concat_getLast hne).symm⟩
+        · intro t ht
+          rw [getElem_dropLast]
+          exact hb t (by simp at ht; omega)
+        · rw [getLast_eq_getElem]
+          have := hb (js.length - 1) (by omega)
+          omega
+
+theorem allChoices_nodup (k n : Nat) : (allChoices k n).Nodup := by
+  induction n with
+  | zero => simp [allChoices]
+  | succ n ih =>
+    by_cases c : n < k
+    · rw [allChoices_le (by omega)]; simp
+    · rw [nodup_iff_pairwise_ne] at ih ⊢
+      rw [allChoices_succ (by omega), pairwise_flatMap]
+      refine ⟨?_, ?_⟩
+      · intro js _
+        rw [pairwise_map]
+        apply Pairwise.imp _ (nodup_iff_pairwise_ne.mp nodup_range)
+        intro a b hab e
+        exact hab (by simpa using e)
+      · apply Pairwise.imp _ ih
+        intro a b hab x h1 y h2 e
+        simp only [mem_map, mem_range] at h1 h2
+        obtain ⟨j1, _, rfl⟩ := h1
+        obtain ⟨j2, _, rfl⟩ := h2
+        exact hab (append_inj_left' e rfl)
 
 end Pds.Reservoir
